@@ -160,6 +160,7 @@ func TestC05Retention(t *testing.T) {
 		h := lstore.NewHist(t, w, c, lstore.HistOpts{Holds: true}) // slow Gets = concurrent touches
 		tr := &tracker{t: t, w: w, c: c, known: known}
 		var literal []*obligation
+		overlappedTouches := 0
 
 		// KLM monitor: remember at which allocation count each key was
 		// last (re)written.
@@ -266,7 +267,51 @@ func TestC05Retention(t *testing.T) {
 				}
 			}
 		}
+		// A second client's single-object FindMissing that overlaps with
+		// uploads: its first scan runs, then it waits for the refresh lock
+		// (held by a composite read that is slicing) while uploads rotate
+		// blocks, then its refreshing scan runs. Verdict point as for any
+		// FindMissing: the rewrite of the index entry, else the start.
+		touchFindOverlapped := func(t *rapid.T) {
+			if cfg.Hierarchical || cfg.Mutable || len(w.Objs) == 0 {
+				touchFind(t)
+				return
+			}
+			parent := lstore.PickObj(t, w, "parent")
+			o := lstore.PickObj(t, w, "obj")
+			if parent == nil || parent.Data == nil || o == nil {
+				touchFind(t)
+				return
+			}
+			pinst := rapid.SampledFrom(lstore.InstanceNames).Draw(t, "pinst")
+			inst := rapid.SampledFrom(lstore.InstanceNames).Draw(t, "inst")
+			n := rapid.IntRange(1, 4).Draw(t, "uploadsBetween")
+			c.Add("fmOverlapped", parent.ID, pinst, o.ID, inst, n)
+			start := w.St.Alloc.NewBlockCalls
+			items := []lstore.ObjInst{{Obj: o, Instance: inst}}
+			present, err, overlapped := w.OverlappedFindMissing(parent, pinst, items, func() {
+				for i := 0; i < n; i++ {
+					w.FinishPut(h.NewUpload())
+				}
+			})
+			if err != nil || !present[0] {
+				return
+			}
+			if overlapped {
+				overlappedTouches++
+			}
+			end := w.St.Alloc.NewBlockCalls
+			v := start
+			for _, key := range lookupKeys(w, o, inst) {
+				if at, ok := lastPut[key]; ok && at >= start && at > v {
+					v = at
+				}
+			}
+			ob := &obligation{o: o, inst: inst, verdict: v, complete: end, how: "a FindMissing (overlapping with uploads) that reported it present"}
+			tr.obl = append(tr.obl, ob)
+		}
 		acts := h.Actions()
+		acts["touchFindOverlapped"] = touchFindOverlapped
 		delete(acts, "get")
 		delete(acts, "findmissing")
 		acts["touchGet"] = touchGet
@@ -297,6 +342,7 @@ func TestC05Retention(t *testing.T) {
 		c.ClassIf(tr.refreshingTouches > 0, "touch_refreshed_an_object")
 		c.ClassIf(tr.checkedAfterAllocs > 0, "obligation_checked_after_allocations")
 		c.ClassIf(tr.literalGaps > 0, "known_finding_shape_excluded")
+		c.ClassIf(overlappedTouches > 0, "findmissing_waited_for_refresh_lock_while_uploads_rotated")
 		c.ClassIf(slowGets > 0, "slow_get_completed_concurrently_with_other_touches")
 		c.ClassIf(cfg.Old == 0, "old_blocks_zero")
 		c.ClassIf(cfg.Mutable, "ac_policy")
